@@ -126,12 +126,13 @@ fn value_sexp(v: &Value, o: &mut String) {
 /// the REAL instruction stream of the compiled template
 fn code_sexp(t: &minijinja::Template) -> String {
     let c = get_compiled_template(t);
-    let mut o = String::from("(code");
+    let mut items: Vec<String> = vec![];
     let mut i = 0;
     while let Some(ins) = c.instructions.get(i) {
         i += 1;
+        let mut o = String::new();
         o.push_str(" (");
-        if let Instruction::LoadConst(v) = ins { o.push_str("LoadConst "); value_sexp(v, &mut o); o.push(')'); continue; }
+        if let Instruction::LoadConst(v) = ins { o.push_str("LoadConst "); value_sexp(v, &mut o); o.push(')'); items.push(o); continue; }
         let j = serde_json::to_value(ins).unwrap_or(J::Null);
         let op = j["op"].as_str().unwrap_or("?").to_string();
         o.push_str(&op);
@@ -144,9 +145,19 @@ fn code_sexp(t: &minijinja::Template) -> String {
             other => o.push_str(&format!(" {}", other)),
         }
         o.push(')');
+        items.push(o);
     }
-    o.push(')');
-    o
+    // the engine emits the `Enclose` instructions of a macro in `HashSet` order: canonicalise
+    let mut k = 0;
+    while k < items.len() {
+        if items[k].starts_with(" (Enclose ") {
+            let mut e = k;
+            while e < items.len() && items[e].starts_with(" (Enclose ") { e += 1; }
+            items[k..e].sort();
+            k = e;
+        } else { k += 1; }
+    }
+    format!("(code{})", items.concat())
 }
 
 /// -> (render result, real instruction stream)
